@@ -31,8 +31,11 @@ def parse_tlc(path):
                 # compact form: one line per state, edges listed with post = "same" for self-loops
                 n = _unq(line, 'NODE')
                 for e in n['edges']:
-                    edges.append({'pre': n['pre'], 'act': e['act'], 'exp': e['exp'],
-                                  'post': n['pre'] if e['post'] == 'same' else e['post']})
+                    x = {'pre': n['pre'], 'act': e['act'], 'exp': e['exp'],
+                         'post': n['pre'] if e['post'] == 'same' else e['post']}
+                    if 'alt' in e:
+                        x['alt'] = e['alt']
+                    edges.append(x)
             elif line.startswith('<<"INST", '):
                 inst = _unq(line, 'INST')
             else:
@@ -172,6 +175,8 @@ def write_walks(path, inst, graph, walks, control=None, evkinds=None):
             for ei in w:
                 e = graph.edges[ei]
                 s = {'act': e['act'], 'exp': e['exp'], 'post': e['post'], 'edge': ei}
+                if 'alt' in e:
+                    s['alt'] = e['alt']
                 if control is not None:
                     c = control(e, graph)
                     if c is not None:
